@@ -384,6 +384,28 @@ func (p *Prog) Region(key string) []*FuncInfo {
 // anchorFor maps a function to the audited anchor whose region (the anchor plus its
 // private helpers) contains it; table rows are keyed by anchors, so that code moved
 // into a helper of an audited function keeps its audit (and its re-verified sub-facts).
+// idCloneArg: the chain is `x.Clone()…` where the local x was defined as jen.Id(<name>): returns <name>.
+// (`counter := jen.Id(index); counter.Clone().Op(":=")…` declares the identifier `index` stands for.)
+func idCloneArg(c *Chain) ast.Expr {
+	if c.Root == nil || c.Encl == nil || len(c.Links) == 0 || c.Links[0].Name != "Clone" {
+		return nil
+	}
+	id, ok := ast.Unparen(c.Root).(*ast.Ident)
+	if !ok {
+		return nil
+	}
+	info := c.Pkg.TypesInfo
+	def := localDef(info, c.Encl.Decl, info.ObjectOf(id))
+	if def == nil {
+		return nil
+	}
+	ch, ok := chainOf(info, def)
+	if !ok || ch.Root != nil || len(ch.Links) != 1 || ch.Links[0].Name != "Id" || len(ch.Links[0].Args) != 1 {
+		return nil
+	}
+	return ch.Links[0].Args[0]
+}
+
 // inspectRegion walks the declarations of the anchor function and of its private helpers.
 func (p *Prog) inspectRegion(key string, f func(rf *FuncInfo, n ast.Node) bool) {
 	for _, rf := range p.Region(key) {
